@@ -1,6 +1,8 @@
 """C18 - extended precision: words of 64+ bits store and render integers bit-exactly."""
 from . import carriers, sizes, flags, pipeline
 
+from . import routes, fresh, flags, sizes, conv, dtype, carriers, funcs, ops, strings, pipeline, widths
+
 EXPLANATION = (
     "R1 every carrier switch in the package (set_val real/complex, utils.wrap, resize's indicator, every kernel's precision cast) compares "
     "against the one module constant (_n_word_max, or min(_n_word_max, 64)) with >=; R2 resize stores status['extended_prec'] on every normal "
@@ -20,9 +22,9 @@ def run(ck):
     flags.reset_rule(ck, "C18.R2")
     carriers.object_chain_float_free(ck, "C18.R3", "C18.R4")
     carriers.wrap_rule(ck, "C03.R1", "C03.R3")
-    from . import strings
     strings.decode_terms(ck, "C11.R4")
     strings.parse_dispatch(ck, "C11.R5")
     roles = flags.handler_roles_quiet(ck.prog)
     pipeline.overflow_dispatch(ck, "C02.R6", "C03.R2", roles)
     pipeline.store_pipeline(ck, "C01.R2", want_bounds=True)
+    carriers.machine_carrier(ck, "C18.R5")
